@@ -523,6 +523,11 @@ def _field_writes_anywhere(F, adt, name):
 
 
 def _field_event_counter(F, b, a):
+    """`self.count += 1` in a `&mut self` method of a per-run instance: the field is written only by methods of that type, each
+    call of an entry method (one that code outside the type calls) performs at most one increment — none in a loop, no two events
+    (increments or calls of other incrementing methods) on one path — every construction starts the field at 0, and every
+    outside call happens at most once per element of an in-memory sequence: in an iterator-driven loop, or in a closure handed to
+    `for_each` / `try_for_each` / `map` of such an iterator, on an instance that is local to the caller."""
     if not (isinstance(a, tuple) and a and a[0] == "field" and isinstance(a[1], tuple) and a[1] and a[1][0] == "param" and a[1][1] == 0 and b.kind == "method"):
         return False
     name = a[2]
@@ -530,28 +535,49 @@ def _field_event_counter(F, b, a):
     if not sty.startswith("&mut "):
         return False
     adt = sty[5:].strip()
+    if "<" in adt:
+        adt = adt[:adt.index("<")]          # RowCollector<'_>
     ws = _field_writes_anywhere(F, adt, name)
-    if not ws or any(wb.id != b.id for wb, _, _ in ws):
-        return False        # somebody else writes the counter too
-    # in this method: only `+ 1`, never in a loop, at most one increment per call
-    incs = []
+    if not ws:
+        return False
+    writers = {}
     for wb, i, s in ws:
-        rv = s["rv"]
-        q = op_place(rv.get("op", {})) if rv["k"] == "use" else None
-        pj = place_proj(q) if q is not None else None
-        td = b.defs().get(q["l"], []) if q is not None else []
-        if not (pj and len(pj) == 1 and isinstance(pj[0], dict) and pj[0].get("f") == 0 and len(td) == 1 and td[0][0] == "assign"
-                and td[0][3]["rv"]["k"] == "bin" and td[0][3]["rv"]["op"] == "AddWithOverflow" and (op_const(td[0][3]["rv"]["b"]) or {}).get("int") == "1"):
-            return False
-        if b.in_loop(i):
-            return False
-        incs.append(i)
-    for i in incs:
-        after = set()
-        for s_ in b.succ(i):
-            after |= b.reach_from(s_)
-        if any(o in after for o in incs):
-            return False
+        if wb.kind != "method" or wb.local_ty(1).replace("'_ ", "") != sty:
+            return False        # written from outside the type's own `&mut self` methods
+        writers.setdefault(wb.id, []).append((wb, i, s))
+    if b.id not in writers:
+        return False
+    # family: the type's methods that (transitively) reach a writer
+    fam = dict((wid, F.bodies[wid]) for wid in writers)
+    changed = True
+    while changed:
+        changed = False
+        for m in F.bodies.values():
+            if m.id in fam or m.kind != "method" or m.argc < 1 or m.local_ty(1).replace("'_ ", "") not in (sty, "&" + sty[5:]):
+                continue
+            if any(t["callee"] in fam for _, t in m.calls()):
+                fam[m.id] = m
+                changed = True
+    for mid, m in fam.items():
+        events = []
+        for wb, i, s in writers.get(mid, []):
+            rv = s["rv"]
+            q = op_place(rv.get("op", {})) if rv["k"] == "use" else None
+            pj = place_proj(q) if q is not None else None
+            td = m.defs().get(q["l"], []) if q is not None else []
+            if not (pj and len(pj) == 1 and isinstance(pj[0], dict) and pj[0].get("f") == 0 and len(td) == 1 and td[0][0] == "assign"
+                    and td[0][3]["rv"]["k"] == "bin" and td[0][3]["rv"]["op"] == "AddWithOverflow" and (op_const(td[0][3]["rv"]["b"]) or {}).get("int") == "1"):
+                return False
+            events.append(i)
+        events += [i for i, t in m.calls() if t["callee"] in fam]
+        for i in events:
+            if m.in_loop(i):
+                return False
+            after = set()
+            for s_ in m.succ(i):
+                after |= m.reach_from(s_)
+            if any(o in after for o in events):
+                return False
     # every construction of the struct starts the counter at 0 (or leaves it to Default)
     for cb in F.bodies.values():
         for i, si, s in cb.assigns():
@@ -562,13 +588,38 @@ def _field_event_counter(F, b, a):
                     continue
                 if k is None or k.get("int") != "0":
                     return False
-    # every caller: once per iteration of an iterator-driven loop, on a local instance
-    sites = [(cb, ci, ct) for cb, ci, ct in F.call_sites(lambda cal, bid=b.id: cal == bid) if user_written(F, cb)]
+    # every call from outside the family: once per element of an in-memory sequence, on a local instance
+    sites = [(cb, ci, ct) for cb, ci, ct in F.call_sites(lambda cal: cal in fam) if user_written(F, cb) and cb.id not in fam]
     if not sites:
         return False
     for cb, ci, ct in sites:
         r = root_of_operand(cb, ct["args"][0])
-        if not r or r[0] <= cb.argc:
+        if not r:
+            return False
+        if cb.kind == "closure" and cb.parent in F.bodies:
+            # the closure is called once per element by for_each / try_for_each / map of an in-memory iterator, the instance is
+            # captured from a local of the parent, and the closure calls the method once
+            pb = F.bodies[cb.parent]
+            if r[0] != 1 or cb.in_loop(ci):
+                return False
+            after = set()
+            for s_ in cb.succ(ci):
+                after |= cb.reach_from(s_)
+            if ci in after or any(t2["callee"] in fam and j != ci for j, t2 in cb.calls()):
+                return False
+            used = False
+            for pi, pt in pb.calls():
+                if parse_callee(pt["callee"])[2] in ("for_each", "try_for_each", "map", "filter_map", "flat_map") and len(pt["args"]) >= 2:
+                    p2 = op_place(pt["args"][1])
+                    d2 = pb.defs().get(p2["l"], []) if p2 is not None else []
+                    if any(d[0] == "assign" and d[3]["rv"]["k"] == "closure" and d[3]["rv"]["id"] == cb.id for d in d2):
+                        aty = " ".join(pt.get("aty") or [])
+                        if ("IntoIter" in aty or "slice::iter::Iter" in aty or "Enumerate" in aty) and not pb.in_loop(pi):
+                            used = True
+            if not used:
+                return False
+            continue
+        if r[0] <= cb.argc:
             return False
         inner = [(h, bl) for h, bl in cb.loops() if ci in bl]
         if not inner:
